@@ -261,6 +261,13 @@ Example trick_runs :
 Proof. vm_compute. repeat split. Qed.
 Print Assumptions trick_runs.
 
+(* the hypothesis "at least one vote" is needed: with no vote and three alternatives the set of bottoms is
+   empty, no pass removes anything and the fuel runs out — the Python loop does not terminate on such an
+   instance (observed; outside the quantifier of the property, which speaks of profiles of orders) *)
+Example trick_needs_a_vote : trick_fwd [1; 2; 3] [] = Err OutOfFuel.
+Proof. vm_compute. reflexivity. Qed.
+Print Assumptions trick_needs_a_vote.
+
 (* NOT hereditary under deletion of alternatives (so no alternative-dropping shrink / embedded-core argument is
    used for this property): every profile whose votes share their top alternative is single-peaked on the star
    centred there, but all six orders of three alternatives are single-peaked on no tree *)
